@@ -427,16 +427,39 @@ def mkscatter(op):
     return mkval(v, op.get('form', 'listarr'))
 
 
-def idx(sel):
+def snap_index(x):
+    """byte snapshot of an index object handed to __getitem__/__setitem__"""
+    if isinstance(x, np.ndarray):
+        return (str(x.dtype), x.shape, x.tobytes())
+    if type(x).__name__ == 'RaggedArray':
+        return snapshot(x)
+    return repr(x)
+
+
+def index_object(ids, dtname, aux):
+    """the index container for `ids`: a python list (dtname None) or an integer ndarray.  The caller of a
+    RaggedArray keeps its index arrays: within one history the SAME ndarray object is handed over every
+    time the same ids (as originally written) are used (`aux['pool']`); every index object is
+    byte-snapshotted (`aux['idx']`) and must come back unchanged."""
+    if dtname is None:
+        obj = list(ids)
+    else:
+        key = (tuple(ids), dtname)
+        pool = aux['pool'] if aux is not None else {}
+        if key not in pool:
+            pool[key] = np.array(list(ids), dtype=np.int32 if dtname == 'np32' else int)
+        obj = pool[key]
+    if aux is not None:
+        aux['idx'].append((obj, snap_index(obj), list(ids)))
+    return obj
+
+
+def idx(sel, aux=None):
     if 'slice' in sel:
         return sl(sel['slice'])
     if 'int' in sel:
         return sel['int']
-    if sel.get('np32'):
-        return np.array(sel['list'], dtype=np.int32)
-    if sel.get('np'):
-        return np.array(sel['list'], dtype=int)
-    return list(sel['list'])
+    return index_object(sel['list'], 'np32' if sel.get('np32') else 'np64' if sel.get('np') else None, aux)
 
 
 def apply_real(a, op, box=None, aux=None):
@@ -454,7 +477,7 @@ def apply_real(a, op, box=None, aux=None):
         return x
 
     def parr(l):
-        return np.array(l, dtype=np.int32 if iw == 'np32' else int)
+        return index_object(l, 'np32' if iw == 'np32' else 'np64', aux)
 
     if k == 'setElem':
         a[_wrap_int(op['i'], iw), _wrap_int(op['j'], iw)] = op['v']
@@ -472,11 +495,11 @@ def apply_real(a, op, box=None, aux=None):
         v = op['v']
         a[_wrap_int(op['i'], iw)] = keepv(v if isinstance(v, np.ndarray) else (np.array(v) if op.get('arr') else list(v)))
     elif k == 'setRows':
-        a[idx(op['sel'])] = keepv(mkval(op['v'], op['form']))
+        a[idx(op['sel'], aux)] = keepv(mkval(op['v'], op['form']))
     elif k == 'setIntSlice':
         a[_wrap_int(op['i'], iw), sl(op['sl'])] = keepv(mkscatter(op))
     elif k == 'set2d':
-        a[idx(op['r']), idx(op['c'])] = keepv(mkscatter(op))
+        a[idx(op['r'], aux), idx(op['c'], aux)] = keepv(mkscatter(op))
     elif k == 'setPaired':
         r, c = op['r'], op['c']
         form = op.get('pform', 'arr')
@@ -488,9 +511,13 @@ def apply_real(a, op, box=None, aux=None):
             key = (parr(r), _wrap_int(c[0], iw))
         else:
             key = (parr(r), parr(c))
+        if op.get('readfirst') and aux is not None:
+            aux['read'] = [unbox(x) for x in np.atleast_1d(a[key])]      # a[(rows, cols)] read, same index objects
         a[key] = keepv(mkscatter(op))
     elif k == 'setMask':
         m = ra.RaggedArray([np.array(x, dtype=bool) for x in op['mask']])
+        if aux is not None:
+            aux['idx'].append((m, snap_index(m), 'mask'))
         a[m] = keepv(mkscatter(op))
     elif k == 'append':
         a.append(keepv(mkval(op['v'], op['form'])))
@@ -515,7 +542,7 @@ def apply_real(a, op, box=None, aux=None):
             return res, None
         return a, res
     elif k == 'iopAt':
-        key = (idx(op['r']), idx(op['c']))
+        key = (idx(op['r'], aux), idx(op['c'], aux))
         a[key] = IOPS[op['f']](a[key], op['c_'])      # what `a[key] ⊕= c` does
     elif k == 'copyCtor':
         if op['viaFlat']:
@@ -940,6 +967,7 @@ FAMILIES = {
     'scale-down': {'scale': 2.0 ** -30},
     'empty-rows': {},
     'views': {'held': 0.8},                       # row views kept by the caller across in-place writes
+    'idpool': {'idpool': 0.7},                    # index ndarrays (with negative ids) re-used across structure changes
 }
 
 
@@ -957,9 +985,39 @@ def _all_leaves(v):
         yield v
 
 
-def gen_op(rng, spec, kinds=None, fam=None):
+def _reuse_ids(rng, op, mem, p):
+    """with probability p replace the integer index lists of `op` by lists used earlier in the history
+    (the ids AS WRITTEN, e.g. [-1, 0]: after an append `-1` is another row), and remember the new ones"""
+    used = mem['ids']
+    slots = []
+    if op['k'] == 'setPaired' and op.get('pform', 'arr') == 'arr' and len(op['r']) == len(op['c']):
+        slots = [('r', None), ('c', None)]
+    for key in ('sel', 'r', 'c'):
+        if isinstance(op.get(key), dict) and 'list' in op[key]:
+            slots.append((key, 'list'))
+    for key, sub in slots:
+        cur = op[key][sub] if sub else op[key]
+        same = [l for l in used if len(l) == len(cur)]
+        if same and rng.random() < p:
+            new = list(same[rint(rng, 0, len(same) - 1)])
+            op['reused'] = True
+            if sub:
+                op[key][sub] = new
+                op[key]['np'] = True
+            else:
+                op[key] = new
+        else:
+            used.append(list(cur))
+    if op['k'] == 'setPaired' and rng.random() < 0.5:
+        op['readfirst'] = True
+    return op
+
+
+def gen_op(rng, spec, kinds=None, fam=None, mem=None):
     """an operation of the grammar, decorated according to the input family"""
     fam = fam or {}
+    if fam.get('idpool') and kinds is None and rng.random() < 0.6:
+        kinds = ['setPaired', 'setPaired', 'set2d', 'setRows', 'append', 'setRow', 'appendFlat', 'iopAt']
     if fam.get('held') and kinds is None and rng.random() < 0.45:
         kinds = ['viewWrite', 'setElem', 'set2d', 'setPaired', 'setMask', 'iopAt', 'binop']
     op = _gen_op(rng, spec, kinds)
@@ -991,6 +1049,8 @@ def gen_op(rng, spec, kinds=None, fam=None):
                 op['vdt'] = ['int8', 'int16', 'int32'][rint(rng, 0, 2)] if max(abs(x) for x in leaves) < 100 else 'int32'
             elif not sc:
                 op['vdt'] = 'float32'
+    if mem is not None:
+        op = _reuse_ids(rng, op, mem, fam.get('idpool', 0.15))
     if rng.random() < w:
         op['iw'] = ['np32', 'np64'][rint(rng, 0, 1)]
         for key in ('sel', 'r', 'c'):
@@ -1272,12 +1332,14 @@ def run_history(st, ops_or_gen, rng=None, nsteps=None, kinds=None, fam=None, lig
     steps = []
     ctor = st['ctor']
     views = {}          # row views the caller holds on to (taken by earlier viewWrite steps)
+    pool = {}           # index ndarrays the caller keeps and re-uses (keyed by the ids as written)
+    mem = {'ids': []}   # id lists used so far in this history (the generator re-uses them)
     t = 0
     while True:
         if nsteps is not None:
             if t >= nsteps:
                 break
-            op = gen_op(rng, spec, kinds, fam)
+            op = gen_op(rng, spec, kinds, fam, mem)
         else:
             if t >= len(ops_or_gen):
                 break
@@ -1298,7 +1360,7 @@ def run_history(st, ops_or_gen, rng=None, nsteps=None, kinds=None, fam=None, lig
             S.serr, s2 = 'value-error', spec
         before = snapshot(a)
         S.res_real = None
-        aux = {'vals': [], 'views': views}
+        aux = {'vals': [], 'views': views, 'pool': pool, 'idx': [], 'read': None}
         try:
             with warnings.catch_warnings():
                 warnings.simplefilter('ignore')
@@ -1310,6 +1372,22 @@ def run_history(st, ops_or_gen, rng=None, nsteps=None, kinds=None, fam=None, lig
             S.rerr, a2, res = errclass(e), a, None
         S.o_real = observe_real(a2, light)
         S.o_spec = observe_rows(s2.rows, light)
+        # ---- index objects are operands too: they must come back exactly as they were handed over
+        for obj_, snap_, ids_ in aux['idx']:
+            if snap_index(obj_) != snap_:
+                S.extra.append('the index object %s handed to the array was changed by the call'
+                               % (ids_ if isinstance(ids_, str) else 'for ids %s' % (ids_,)))
+                break
+        if S.extra:
+            pool.clear()            # the caller's arrays are spoiled: start over with fresh ones
+        # ---- a[(rows, cols)] read through the same index objects, before the write
+        if aux['read'] is not None and S.serr is None:
+            try:
+                want_ = [spec.rows[r_][c_] for r_, c_ in spec.paired(mop)]
+                if [cs(x) for x in aux['read']] != [cs(x) for x in want_]:
+                    S.extra.append('a[(rows, cols)] read cells other than rows[r][c]')
+            except SpecError:
+                pass
         # ---- values handed to the array are copied: changing them afterwards must not reach the array
         if S.rerr is None and aux['vals']:
             for x in aux['vals']:
@@ -1374,6 +1452,7 @@ def run_history(st, ops_or_gen, rng=None, nsteps=None, kinds=None, fam=None, lig
             ctor = 'nested'
             keep = []
             views.clear()
+            pool.clear()
             a = build_real([r.tolist() for r in spec.rows], spec.dtname, 'nested', keep)
             src_snap = [x.tobytes() for x in keep]
         else:
@@ -1428,6 +1507,8 @@ def judge(ctx, st, steps, resp, cfg, tags=()):
                                   'value-dtype=%s' % op.get('vdt') if op.get('vdt') else None,
                                   'index-wrapper=%s' % op.get('iw') if op.get('iw') else None,
                                   'held-view' if op.get('held') else None,
+                                  'index-ids-reused' if op.get('reused') else None,
+                                  'read-before-write' if op.get('readfirst') else None,
                                   'ctor=' + str(st.get('ctor')) if t == 0 else None,
                                   'value-kind-differs' if _kind_differs(op, S.spec_before) else None) if t_]
                  + list(tags))
@@ -1847,9 +1928,9 @@ def big_histories(ctx, cfg, rng):
 
 
 # ================================================================== entry points
-QUICK_FAMILIES = [('std', 350), ('dtype', 90), ('mixed', 90), ('views', 50), ('empty-rows', 40),
+QUICK_FAMILIES = [('std', 330), ('dtype', 90), ('mixed', 90), ('views', 50), ('idpool', 70), ('empty-rows', 40),
                   ('scale-up', 20), ('scale-down', 20)]
-THOROUGH_FAMILIES = [('std', 4000), ('dtype', 1200), ('mixed', 1200), ('views', 600), ('empty-rows', 500),
+THOROUGH_FAMILIES = [('std', 4000), ('dtype', 1200), ('mixed', 1200), ('views', 600), ('idpool', 800), ('empty-rows', 500),
                      ('scale-up', 250), ('scale-down', 250)]
 
 
